@@ -48,7 +48,8 @@ def run(ctx, res):
         cfg, xs = nnm.gen_nondyadic(ctx.rng)
         nd.append({"cfg": cfg, "xs": xs, "impl": nnm.run_impl(cfg, xs, variant=i), "tag": "non-dyadic (oracle only)"})
     res.stats_nd = len(nd)
-    cases = cases + nd
+    lg = nnm.long_cases(ctx.rng, ctx.n(150, 1500))     # 65..3000 draws, integer-typed u, other units (oracle only)
+    cases = cases + nd + lg
     res.evaluations += len(cases)
     for c in cases:
         res.oracle_runs += 1
@@ -59,7 +60,8 @@ def run(ctx, res):
             res.nontrivial.add(repr((c["cfg"], c["xs"])))
     res.rule = ("random configurations of all six tests x estimators/bets x finite/infinite N on dyadic grids, samples of "
                 "length 1..14 incl. the boundary stream (all-zero, all-u, values equal to t, totals reaching N t, m_j hitting 0 and u); "
-                "15% on an instance re-parametrised in place; non-trivial = non-constant sample or length 1, distinct by (cfg, xs)")
+                "15% on an instance re-parametrised in place; plus oracle-only streams: non-dyadic values, and long samples (65..3000 draws, "
+                "lengths off every block size, integer-typed u, long favourable runs that overflow the product, problems in units of 1e-9..1e6); non-trivial = non-constant sample or length 1, distinct by (cfg, xs)")
     res.samples = [nnm.case_json(c) for c in cases[:4]]
-    res.stats = nnm.branch_stats(cases)
+    res.stats = dict(nnm.branch_stats(cases), **nnm.long_stats(lg))
     res.assumptions = ["np.sqrt modelled by any function with 0 < x -> 0 < sqrt x (theorems) / Z.sqrt to 2^-60 (runs)"]
